@@ -143,3 +143,34 @@ func optionValueConfigs() []optionConfig {
 	}
 	return out
 }
+
+// tomlSyntaxZoo: documents that use every syntactic form TOML has for keys, tables and values, all in sections no lint
+// knows about - to a linter they are all "a configuration with only unrelated content".
+func tomlSyntaxZoo() []string {
+	docs := []string{
+		"\"\" = 1\n",
+		"[\"\"]\nA = 1\n",
+		"x = { \"\" = 1 }\n",
+		"[ca_labels]\n'Example \"Legacy\" Root' = \"legacy\"\n",
+		"[labels]\n\"a.b\" = 1\n'c d' = 2\n\"\\u00e9\" = 3\n",
+		"a.b.\"c.d\".e = 1\n",
+		"[[things]]\nname = \"one\"\n[[things]]\nname = \"two\"\n[things.sub]\nx = 1\n",
+		"when = 1979-05-27T07:32:00Z\nday = 1979-05-27\nclock = 07:32:00\nlocal = 1979-05-27T07:32:00\n",
+		"n = [0x1F, 0o17, 0b101, 1_000, +1, -0]\nf = [1e3, -1.5E-2, inf, -inf, nan]\n",
+		"s = \"\"\"\nmulti\nline \\\n  continued\"\"\"\nl = '''\nraw \\ text'''\nq = 'C:\\path'\n",
+		"mixed = [[1, 2], [\"a\", \"b\"]]\nempty = []\nnested = { a = { b = { c = [ { d = 1 } ] } } }\n",
+		"\"key with spaces\" = true\n\"ʎǝʞ\" = \"unicode\"\n\"quo\\\"te\" = 1\n",
+		"# only a comment\n",
+		"\n\n\t\n",
+		"[a]\n[a.b]\n[a.b.c]\n[a.\"\".d]\nx = 1\n",
+		"'' = 'empty literal key'\n",
+		"[servers.\"10.0.0.1\"]\nrole = \"x\"\n['quoted \"table\"']\ny = 2\n",
+	}
+	var ok []string
+	for _, d := range docs {
+		if _, err := lint.NewConfigFromString(d); err == nil {
+			ok = append(ok, d)
+		}
+	}
+	return ok
+}
